@@ -33,6 +33,7 @@ func main() {
 	wall := flag.Float64("wall", 0, "wall seconds so far (aggregate)")
 	deadline := flag.Float64("deadline", 0, "seconds after which the worker stops (exhaustive:false)")
 	extra := flag.String("extra", "", "json file with extra coverage keys (aggregate)")
+	extraFail := flag.String("extra-failures", "", "json file with failures found by an auxiliary pass (aggregate)")
 	config := flag.String("config", "", "build configuration (extra tags) this binary was built with")
 	nconfigs := flag.Int("nconfigs", 0, "number of build configurations expected (aggregate)")
 	evdir := flag.String("evidence-dir", "", "where to write the evidence file (default <verif>/evidence)")
@@ -64,6 +65,11 @@ func main() {
 		if *extra != "" {
 			if b, err := os.ReadFile(*extra); err == nil {
 				json.Unmarshal(b, &o.ExtraCov)
+			}
+		}
+		if *extraFail != "" {
+			if b, err := os.ReadFile(*extraFail); err == nil {
+				json.Unmarshal(b, &o.ExtraFailures)
 			}
 		}
 		os.Exit(core.Aggregate(o))
